@@ -89,9 +89,11 @@ class SMI(Machine):
         if isinstance(v, XNode):
             return 'Element { tag_name: %s }' % v.d.get('tag') if isinstance(v.d.get('tag'), str) else 'Element { .. }'
         if isinstance(v, RString):
-            return repr(v.s) if isinstance(v.s, str) else v.s
-        if isinstance(v, str):
-            return '"%s"' % v
+            v = v.s
+        if isinstance(v, (str, SymVal)):
+            return self.smap(lambda s_: native.call('debug', s_), v)     # Rust's own <str as Debug>::fmt, run natively
+        if isinstance(v, Url):
+            raise Unsupported('Debug of a Url')
         if isinstance(v, Opaque):
             return '<%s>' % v.kind
         raise Unsupported('debug of %r' % (v,))
@@ -1146,6 +1148,19 @@ class SMI(Machine):
             sep = self.cstr(args[1])
             i = s.rfind(sep)
             return NONE() if i < 0 else SOME([s[:i], s[i + len(sep):]])
+        if meth == 'split' and isinstance(deref(args[1]), list) and all(isinstance(ch, str) and len(ch) == 1 for ch in deref(args[1])):
+            import re as _re
+            return It(iter(_re.split('[' + ''.join(_re.escape(ch) for ch in deref(args[1])) + ']', s)))
+        if meth == 'split' and isinstance(deref(args[1]), (Adt, tuple)) and not isinstance(deref(args[1]), str):
+            parts, cur = [], ''
+            for ch in s:
+                if self.truth(self.call_closure(args[1], [ch])):
+                    parts.append(cur)
+                    cur = ''
+                else:
+                    cur += ch
+            parts.append(cur)
+            return It(iter(parts))
         if meth == 'split':
             return It(iter(s.split(self.cstr(args[1]))))
         if meth == 'rsplit':
